@@ -364,6 +364,11 @@ def scenario(rng, idx, prop, tag):
             steps = steps[:cut] + [{"c": 1, "sid": 0, "seq": 0, "ty": 0, "min": 0, "fl": 0, "p": raw([]), "eof": True, "pws": []}] + other
         else:
             steps = interleave(rng, [steps, other])
+    if prop in ("C14", "C11", "C07") and len(conns) == 1 and rng.random() < (0.4 if prop == "C14" else 0.2):
+        # everything once more on a second connection: whatever the first pass left behind in the process (compiled
+        # patterns, decisions, per-user handler state) is met again by the same requests
+        conns.append({"c": 2, "addr": rng.choice(ADDR[scope])})
+        steps = steps + [dict(st, c=2) for st in steps]
     if prop == "C14" and rng.random() < 0.5:
         # hostile octet streams after (or instead of) well-formed traffic
         k = rng.random()
@@ -519,6 +524,8 @@ def collect(ctx, prop):
     tf = ctx.path("trace.ndjson")
     p = ctx.run_harness(["ref", sfile, tf, str(ctx.seed)], check=False)
     crashed = p.returncode != 0
+    if crashed:
+        drop_partial_tail(tf)
     ctx.log("harness done (rc=%d)" % p.returncode)
     stats = {}
     if not crashed:
